@@ -165,9 +165,32 @@ def gen_wf_spec(rng, rate, vmax, malformed=False, extra=False):
     return spec
 
 
+def make_twin(rng, spec, rate):
+    """a different waveform (unequal as a qupulse Waveform) that samples to the same 14-bit codes and markers:
+    a voltage shift far below one code, or a constant written as a two-entry table"""
+    twin = json.loads(json.dumps(spec))
+    dur = float(F(spec['n'] * rate[1], rate[0]))
+    ch = rng.choice(VOLT)
+    cs = twin['ch'][ch]
+    eps = 2.0 ** -30
+    if cs[0] == 'const' and rng.random() < 0.5:
+        twin['ch'][ch] = ['rawtable', [[0.0, cs[1], 'hold'], [dur, cs[1], 'hold']]]
+    elif cs[0] == 'const':
+        twin['ch'][ch] = ['const', cs[1] + eps]
+    elif cs[0] in ('table', 'rawtable'):
+        twin['ch'][ch] = [cs[0], [[t, v + eps, i] for t, v, i in cs[1]]]
+    else:
+        twin['ch'][ch] = ['func', '(%s) + %r' % (cs[1], eps)]
+    return twin
+
+
 def gen_pool(rng, rate, vmax, size, malformed=False):
     pool = []
     for i in range(size):
+        r = rng.random()
+        if pool and r < 0.12 and 'dur' not in pool[-1]:
+            pool.append(make_twin(rng, rng.choice([p for p in pool if 'dur' not in p]), rate))
+            continue
         r = rng.random()
         if pool and r < 0.25:
             # sibling: same data on some channels, different on others (de-duplication must look at everything)
@@ -233,6 +256,10 @@ def gen_pt_tree(rng, depth, npool):
     return ['for', rng.choice([1, 2, 3]), gen_pt_tree(rng, depth - 1, npool)]
 
 
+# real identifiers behind the symbolic names: integers (0 included) and mixtures of integers and strings
+ID_MAPS = [{'A': 0, 'B': 1, 'M': 2, 'N': 3, 'X': 4}, {'A': 1, 'B': 0, 'M': 3, 'N': 2, 'X': 9},
+           {'A': 0, 'B': 'B', 'M': 'M', 'N': 5, 'X': 'X'}, {'A': 'A', 'B': 7, 'M': 0, 'N': 'N', 'X': 1},
+           {'A': 'ch_a', 'B': 0, 'M': 'm', 'N': 'n', 'X': 'x'}]
 LIMITS = [(3, 16384), (1, 16384), (3, 4), (3, 5), (2, 4), (3, 8), (4, 6), (5, 12), (1, 3), (3, 3), (2, 2), (6, 7)]
 CHANNELS = [('A', 'B'), ('B', 'A'), ('A', None), (None, 'B'), (None, None), ('A', 'A'), ('B', None)]
 MARKERS = [('M', 'N'), ('N', 'M'), ('M', None), (None, 'N'), (None, None), ('M', 'M'), ('A', 'M')]
@@ -264,10 +291,14 @@ def build_channel(q, ch, cspec, dur_tt):
     kind = cspec[0]
     if kind == 'const':
         return q.wfm.ConstantWaveform(dur_tt, cspec[1], ch)
-    if kind == 'table':
+    if kind in ('table', 'rawtable'):
         interp = {'hold': q.ip.HoldInterpolationStrategy(), 'linear': q.ip.LinearInterpolationStrategy(),
                   'jump': q.ip.JumpInterpolationStrategy()}
-        return q.wfm.TableWaveform.from_table(ch, [q.wfm.TableWaveformEntry(t, v, interp[i]) for t, v, i in cspec[1]])
+        entries = [q.wfm.TableWaveformEntry(t, v, interp[i]) for t, v, i in cspec[1]]
+        if kind == 'rawtable':
+            # the plain constructor: no folding of a constant table into a ConstantWaveform
+            return q.wfm.TableWaveform(ch, tuple(entries))
+        return q.wfm.TableWaveform.from_table(ch, entries)
     if kind == 'func':
         return q.wfm.FunctionWaveform.from_expression(q.ExpressionScalar(cspec[1]), dur_tt, ch)
     raise core.MachineryError('bad channel spec %r' % (cspec,))
@@ -279,13 +310,21 @@ def wf_duration(q, spec, rate):
     return q.TimeType.from_fraction(spec['n'] * rate[1], rate[0])
 
 
-def build_wf(q, spec, rate):
+def real_id(ids, ch):
+    """the symbolic channel names of a case ('A', 'B', 'M', 'N', 'X') may stand for other identifiers: qupulse's
+    ChannelID is str | int, and the integer 0 is a perfectly valid one"""
+    if ch is None:
+        return None
+    return (ids or {}).get(ch, ch)
+
+
+def build_wf(q, spec, rate, ids=None):
     dur = wf_duration(q, spec, rate)
     if 'dur' in spec:
         # only constants can carry an off-grid duration consistently
-        subs = [q.wfm.ConstantWaveform(dur, 0.125, ch) for ch in spec['ch']]
+        subs = [q.wfm.ConstantWaveform(dur, 0.125, real_id(ids, ch)) for ch in spec['ch']]
     else:
-        subs = [build_channel(q, ch, cs, dur) for ch, cs in spec['ch'].items()]
+        subs = [build_channel(q, real_id(ids, ch), cs, dur) for ch, cs in spec['ch'].items()]
     return q.wfm.MultiChannelWaveform.from_parallel(subs)
 
 
@@ -294,12 +333,12 @@ def build_channel_pt(q, ch, cspec, dur):
     kind = cspec[0]
     if kind == 'const':
         return P.ConstantPT(dur, {ch: cspec[1]})
-    if kind == 'table':
+    if kind in ('table', 'rawtable'):
         return P.TablePT({ch: [(t, v, i) for t, v, i in cspec[1]]})
     return P.FunctionPT(cspec[1], dur, channel=ch)
 
 
-def build_pt(q, t, pool, rate, counter, loopvar=None):
+def build_pt(q, t, pool, rate, counter, loopvar=None, ids=None):
     P = q.pulses
     if t[0] == 'a':
         spec = pool[t[1]]
@@ -308,17 +347,17 @@ def build_pt(q, t, pool, rate, counter, loopvar=None):
         for ch, cs in spec['ch'].items():
             if loopvar is not None and ch == 'B':
                 # inside a for-loop the body has to use the index: channel B steps with it
-                subs.append(P.ConstantPT(dur, {ch: '0.015625*%s - 0.125' % loopvar}))
+                subs.append(P.ConstantPT(dur, {real_id(ids, ch): '0.015625*%s - 0.125' % loopvar}))
             else:
-                subs.append(build_channel_pt(q, ch, cs, dur))
+                subs.append(build_channel_pt(q, real_id(ids, ch), cs, dur))
         return P.AtomicMultiChannelPT(*subs)
     if t[0] == 'seq':
-        return P.SequencePT(*[build_pt(q, c, pool, rate, counter, loopvar) for c in t[1]])
+        return P.SequencePT(*[build_pt(q, c, pool, rate, counter, loopvar, ids) for c in t[1]])
     if t[0] == 'rep':
-        return P.RepetitionPT(build_pt(q, t[2], pool, rate, counter, loopvar), t[1])
+        return P.RepetitionPT(build_pt(q, t[2], pool, rate, counter, loopvar, ids), t[1])
     counter[0] += 1
     var = 'i%d' % counter[0]
-    body = build_pt(q, t[2], pool, rate, counter, var)
+    body = build_pt(q, t[2], pool, rate, counter, var, ids)
     if var not in body.parameter_names:
         return P.RepetitionPT(body, t[1])
     return P.ForLoopPT(body, var, t[1])
@@ -352,12 +391,12 @@ def build_loop(q, t, wfs, vols, vars_=None, scopes=None):
 def build_program(q, case):
     rate = tuple(case['rate'])
     if case.get('pt') is not None:
-        pt = build_pt(q, case['pt'], case['pool'], rate, [0])
+        pt = build_pt(q, case['pt'], case['pool'], rate, [0], None, case.get('ids'))
         prog = pt.create_program()
         if prog is None:
             raise core.MachineryError('empty program from pulse template')
         return prog, {}
-    wfs = [build_wf(q, s, rate) for s in case['pool']]
+    wfs = [build_wf(q, s, rate, case.get('ids')) for s in case['pool']]
     specs = {id(w): (json.dumps([s, rate], sort_keys=True), w) for w, s in zip(wfs, case['pool'])}
     return build_loop(q, case['tree'], wfs, [], case.get('vars')), specs
 
@@ -421,7 +460,8 @@ class Source:
         np = q.np
         cfg = case['cfg']
         rate = q.TimeType.from_fraction(*case['rate'])
-        self.used = frozenset(c for c in cfg['channels'] + cfg['markers'] if c is not None)
+        ids = case.get('ids')
+        self.used = frozenset(real_id(ids, c) for c in cfg['channels'] + cfg['markers'] if c is not None)
         self.obj_ids = {}
         self.eq_ids = {}
         self.wf_lines = []
@@ -455,7 +495,7 @@ class Source:
                     if val is None:
                         if times is None:
                             times = np.arange(n, dtype=float) / float(rate)
-                        val = Pre(ser(dyadic(TRAFOS[cfg['trafos'][idx]](wf.get_sampled(ch, times)))))
+                        val = Pre(ser(dyadic(TRAFOS[cfg['trafos'][idx]](wf.get_sampled(real_id(ids, ch), times)))))
                         if key and len(_SAMPLE_CACHE) < 4000:
                             _SAMPLE_CACHE[key] = val
                     item.append(val)
@@ -470,7 +510,7 @@ class Source:
                         if times is None:
                             times = np.arange(n, dtype=float) / float(rate)
                         # full rate; the judge keeps every second sample of the whole program
-                        val = Pre(bits(wf.get_sampled(mk, times) != 0))
+                        val = Pre(bits(wf.get_sampled(real_id(ids, mk), times) != 0))
                         if key and len(_SAMPLE_CACHE) < 4000:
                             _SAMPLE_CACHE[key] = val
                     item.append(val)
@@ -577,7 +617,9 @@ def run_impl(q, prog, case):
     mode = {'auto': None, 'single': tb.TaborSequencing.SINGLE, 'advanced': tb.TaborSequencing.ADVANCED}[cfg['mode']]
     props = {'chan_per_part': 2, 'min_seq_len': cfg['limits'][0], 'max_seq_len': cfg['limits'][1]}
     try:
-        tp = tb.TaborProgram(prog.copy_tree_structure(), props, tuple(cfg['channels']), tuple(cfg['markers']),
+        ids = case.get('ids')
+        tp = tb.TaborProgram(prog.copy_tree_structure(), props, tuple(real_id(ids, c) for c in cfg['channels']),
+                             tuple(real_id(ids, c) for c in cfg['markers']),
                              tuple(cfg['amps']), tuple(cfg['offs']), tuple(TRAFOS[t] for t in cfg['trafos']),
                              q.TimeType.from_fraction(*case['rate']), mode)
     except Exception as exc:  # noqa
@@ -781,6 +823,8 @@ def random_case(rng, family):
     pool = gen_pool(rng, rate, 0.3, rng.randrange(1, 6), malformed=malformed_len)
     cfg = gen_config(rng, malformed=malformed_range)
     case = {'rate': rate, 'pool': pool, 'cfg': cfg, 'family': family}
+    if rng.random() < 0.35:
+        case['ids'] = dict(rng.choice(ID_MAPS))
     if family == 'pt':
         for spec in pool:
             spec['ch'].pop('X', None)
@@ -841,7 +885,10 @@ def compat_case(rng):
     else:
         tree = ['l', 1, False, [['w', 2, len(units) - 1, False]]]
     cfg = gen_config(rng)
-    return {'rate': rate, 'pool': pool, 'cfg': cfg, 'family': 'compat', 'tree': expand(tree), 'pt': None, 'compat': True}
+    case = {'rate': rate, 'pool': pool, 'cfg': cfg, 'family': 'compat', 'tree': expand(tree), 'pt': None, 'compat': True}
+    if rng.random() < 0.35:
+        case['ids'] = dict(rng.choice(ID_MAPS))
+    return case
 
 
 SMALL_WF = [
@@ -849,6 +896,13 @@ SMALL_WF = [
     {'n': 192, 'ch': {'A': ['const', 0.25], 'B': ['const', 0.125], 'M': ['const', 0.0], 'N': ['const', 1.0]}},
     # same channel A words (codes and marker bits) as waveform 0, different channel B
     {'n': 192, 'ch': {'A': ['const', 0.25], 'B': ['const', 0.1875], 'M': ['const', 1.0], 'N': ['const', 0.0]}},
+]
+# distinct waveforms that quantise to the segments of waveform 0 / waveform 1 (2^-30 V is far below one code;
+# a constant written as a table that is not folded into a ConstantWaveform)
+TWIN_WF = SMALL_WF + [
+    {'n': 192, 'ch': {'A': ['const', 0.25 + 2.0 ** -30], 'B': ['const', -0.125], 'M': ['const', 1.0], 'N': ['const', 0.0]}},
+    {'n': 192, 'ch': {'A': ['const', 0.25], 'B': ['rawtable', [[0.0, 0.125, 'hold'], [192.0, 0.125, 'hold']]],
+                      'M': ['const', 0.0], 'N': ['const', 1.0]}},
 ]
 ENTRY_LISTS = [[(1, 0)], [(2, 0)], [(3, 1)], [(1, 0), (1, 1)], [(1, 0), (1, 0)], [(2, 0), (1, 1)], [(1, 1), (2, 0)],
                [(1, 0), (1, 1), (1, 0)], [(1, 0), (1, 1), (2, 0)], [(5, 1)], [(1, 0), (1, 1), (1, 0), (1, 1)],
@@ -864,6 +918,38 @@ def exhaustive_cases(max_tables, limits, counts):
                 yield {'rate': [1, 1], 'pool': SMALL_WF, 'tree': tree, 'pt': None, 'family': 'exhaustive',
                        'cfg': {'channels': ['A', 'B'], 'markers': ['M', 'N'], 'amps': [0.5, 0.5], 'offs': [0.0, 0.0],
                                'trafos': ['id', 'id'], 'limits': list(lim), 'mode': 'auto'}}
+
+
+def twin_cases():
+    """different waveforms sharing one segment, followed by waveforms that need new segments: the segment numbering
+    of _calc_sampled_segments / get_sequencer_tables must stay consistent with the segment list"""
+    cfg = {'channels': ['A', 'B'], 'markers': ['M', 'N'], 'amps': [0.5, 0.5], 'offs': [0.0, 0.0],
+           'trafos': ['id', 'id'], 'limits': [1, 16384], 'mode': 'auto'}
+    seqs = [[0, 3, 1], [3, 0, 2, 1], [1, 4, 0, 2], [0, 3, 1, 4, 2], [4, 1, 2], [0, 1, 3, 2], [2, 3, 0, 4, 1], [3, 4]]
+    for seq in seqs:
+        k = max(1, len(seq) // 2)
+        trees = [['l', 1, False, [['w', 1 + (i % 2), w, False] for i, w in enumerate(seq)]],
+                 ['l', 1, False, [['l', 2, False, [['w', 1, w, False] for w in seq[:k]]],
+                                  ['l', 3, False, [['w', 2, w, False] for w in seq[k:]]]]]]
+        for tree in trees:
+            for chans in (['A', 'B'], [None, 'B'], ['B', 'A']):
+                for lim in ([1, 16384], [2, 4]):
+                    yield {'rate': [1, 1], 'pool': TWIN_WF, 'tree': tree, 'pt': None, 'family': 'twins',
+                           'cfg': dict(cfg, channels=chans, limits=lim)}
+
+
+def ids_cases():
+    """integer channel / marker identifiers (0 included) on every output"""
+    cfg = {'channels': ['A', 'B'], 'markers': ['M', 'N'], 'amps': [0.5, 0.5], 'offs': [0.0, 0.0],
+           'trafos': ['id', 'id'], 'limits': [1, 16384], 'mode': 'auto'}
+    trees = [['l', 1, False, [['w', 2, 0, False], ['w', 1, 1, False], ['w', 1, 2, False]]],
+             ['l', 2, False, [['l', 2, False, [['w', 1, 0, False], ['w', 1, 1, False]]], ['w', 3, 2, False]]]]
+    for ids in ID_MAPS:
+        for tree in trees:
+            for chans in (['A', 'B'], ['B', 'A'], [None, 'A'], ['A', None], ['A', 'A'], [None, 'B']):
+                for marks in (['M', 'N'], [None, 'M'], ['N', None]):
+                    yield {'rate': [1, 1], 'pool': SMALL_WF, 'tree': tree, 'pt': None, 'family': 'ids', 'ids': dict(ids),
+                           'cfg': dict(cfg, channels=chans, markers=marks)}
 
 
 def volscope_cases():
@@ -925,6 +1011,8 @@ def run(ctx: core.Ctx):
                                      'tables (count 1..3) x 2 limit pairs over 13 entry lists: %d cases' % len(space))
     run_cases(ctx, 'exh', space, 3000 if ctx.quick else 1500)
     run_cases(ctx, 'volscope', list(volscope_cases()), 400)
+    run_cases(ctx, 'twins', list(twin_cases()), 400)
+    run_cases(ctx, 'ids', list(ids_cases()), 400)
     # ---- random structured cases
     for family, nq, nt in (('tree', 300, 20000), ('pt', 80, 5000), ('volatile', 60, 4000), ('malformed', 60, 3000),
                            ('compat', 50, 3000)):
